@@ -28,6 +28,7 @@ var redirects = map[string]string{
 	"errors.As":                    "M_errors_As",
 	"math/rand.Shuffle":            "M_rand_Shuffle",
 	"strings.TrimSpace":            "M_strings_TrimSpace",
+	"strconv.ParseFloat":           "M_strconv_ParseFloat",
 	"strings.ToUpper":              "M_strings_ToUpper",
 	"strings.ToLower":              "M_strings_ToLower",
 	"strings.IndexFunc":            "M_strings_IndexFunc",
@@ -110,6 +111,13 @@ func init() {
 	intrinsics[zz+"Uint16"] = intInt(16, "uint16")
 	intrinsics[zz+"Uint8"] = intInt(8, "uint8")
 	intrinsics[zz+"Bool"] = intInt(1, "bool")
+	intrinsics[zz+"Float64"] = func(x *Exec, st *State, fr *Frame, fn *ssa.Function, a []Value) (Value, int) {
+		name := x.nondetName(st, x.concStr(a[0], "nondet name"))
+		bits := x.tc.Var(name, BV(64))
+		st.nondet = append(st.nondet, NondetRec{Name: name, Kind: "uint64", Term: bits})
+		st.mutGen++
+		return ret1(x.tc.App("to_fp_bits", FPSort, bits))
+	}
 	intrinsics[zz+"IntRange"] = func(x *Exec, st *State, fr *Frame, fn *ssa.Function, a []Value) (Value, int) {
 		lo, hi := x.concInt(a[1], "IntRange"), x.concInt(a[2], "IntRange")
 		if lo == hi {
@@ -560,7 +568,8 @@ func init() {
 			}
 			return ret1(TupleV{x.tc.Const(64, uint64(v)), IfaceV{}})
 		}
-		return nil, 0 // fall through to the model
+		x.redirArgs = a
+		return &FuncV{fn: x.modelFn("M_strconv_Atoi")}, 3
 	}
 	intrinsics["unique.Make"] = func(x *Exec, st *State, fr *Frame, fn *ssa.Function, a []Value) (Value, int) {
 		// canonical object per distinct (concrete) value
@@ -578,6 +587,10 @@ func init() {
 		h := a[0].(*StructV)
 		return ret1(x.load(st, h.f[0].(PtrV)))
 	}
+	ident := func(x *Exec, st *State, fr *Frame, fn *ssa.Function, a []Value) (Value, int) { return ret1(a[0]) }
+	intrinsics["internal/stringslite.Clone"] = ident
+	intrinsics["strings.Clone"] = ident
+	intrinsics["strconv.cloneString"] = ident
 	intrinsics["runtime.KeepAlive"] = func(x *Exec, st *State, fr *Frame, fn *ssa.Function, a []Value) (Value, int) { return nil, 1 }
 	intrinsics["runtime.Gosched"] = func(x *Exec, st *State, fr *Frame, fn *ssa.Function, a []Value) (Value, int) { return nil, 1 }
 	intrinsics["reflect.DeepEqual"] = func(x *Exec, st *State, fr *Frame, fn *ssa.Function, a []Value) (Value, int) {
